@@ -81,3 +81,25 @@ Theorem C10_transparent_composites_any_root : forall a id ops,
   answers_equiv (source a) ops (fst (run_hops [] (SCached id a) ops)) (fresh_answers a ops) 0 = 0.
 Proof. intros a id ops H1 H2 H3 H4 H5 H6. exact (FinalCache.cached_composite_transparent a H1 H2 H3 H4 H5 H6 id ops). Qed.
 Print Assumptions C10_transparent_composites_any_root.
+
+(* ... and for EVERY history of observations (both column settings, both streaming modes, map,
+   text views, hash, clones): a CachedSource over a ConcatSource, or over a ReplaceSource with
+   replacements, of any trees over Raw* / Original / SourceMapSource (consistent map) / Concat /
+   Replace is transparent.  Hypothesis: the encoder's domain in all four modes. *)
+From RS Require Proofs.LinesCache.
+Theorem C10_transparent_concat_all_histories : forall id cs ops,
+  RStreamTree.rshape (SConcat cs) = true -> treeA (SConcat cs) = true -> RStreamTree.rsmall (SConcat cs) = true ->
+  (forall c f, forallb mapping_small (chunk_mappings (CacheReplay.evs_of (SConcat cs) c f)) = true) ->
+  answers_equiv (source (SConcat cs)) ops (fst (run_hops [] (SCached id (SConcat cs)) ops))
+                (fresh_answers (SConcat cs) ops) 0 = 0.
+Proof. exact LinesCache.cached_concat_transparent_all. Qed.
+Print Assumptions C10_transparent_concat_all_histories.
+
+Theorem C10_transparent_replace_all_histories : forall id i r rs ops,
+  RStreamTree.rshape (SReplace i (r :: rs)) = true -> treeA (SReplace i (r :: rs)) = true ->
+  RStreamTree.rsmall (SReplace i (r :: rs)) = true ->
+  (forall c f, forallb mapping_small (chunk_mappings (CacheReplay.evs_of (SReplace i (r :: rs)) c f)) = true) ->
+  answers_equiv (source (SReplace i (r :: rs))) ops (fst (run_hops [] (SCached id (SReplace i (r :: rs))) ops))
+                (fresh_answers (SReplace i (r :: rs)) ops) 0 = 0.
+Proof. exact LinesCache.cached_replace_transparent_all. Qed.
+Print Assumptions C10_transparent_replace_all_histories.
